@@ -3,6 +3,7 @@
 
 #![allow(clippy::type_complexity, clippy::too_many_arguments)]
 
+pub mod fuzzing;
 pub mod panics;
 pub mod props;
 #[cfg(feature = "quinn")]
